@@ -24,6 +24,16 @@ git apply $src/patch.diff
 rm -f $demo
 echo "== suite with patch"; go build ./... && go test -vet=off -count=1 ./... > $T/suite.log 2>&1; rc_suite=$?
 grep -v '^ok\|no test files' $T/suite.log | tail -5
+# timing-sensitive tests of the suite fail now and then on a busy machine
+# (with and without the patch): re-run only the packages that failed, twice at most
+for attempt in 1 2; do
+  [ $rc_suite -eq 0 ] && break
+  failed=$(sed -n 's#^FAIL[ \t]\+\(github.com/buchgr/bazel-remote/v2[^ \t]*\).*#\1#p' $T/suite.log | sort -u | sed 's#github.com/buchgr/bazel-remote/v2#.#')
+  [ -z "$failed" ] && break
+  echo "== re-running failed packages (attempt $attempt): $failed"
+  go test -vet=off -count=1 $failed > $T/suite.log 2>&1; rc_suite=$?
+  grep -v '^ok\|no test files' $T/suite.log | tail -5
+done
 cp $src/demo_test.go $demo
 echo "== demo with patch"; eval "$runline" > $T/mut.log 2>&1; rc_mut=$?
 tail -3 $T/mut.log
